@@ -801,8 +801,11 @@ class Run:
         before = snapshot(self.disk)
         dest_rel = os.path.normpath(step['dest'])
         dest_path = self.path(step['dest'])
-        if step.get('dest_as'):
-            # another spelling of the same destination (never normalised)
+        if step.get('dest_as') and not (
+                self.cfg['path_style'] == 'tilde' and step['fmt'] != 'fits'):
+            # another spelling of the same destination (never normalised;
+            # not for "~/..." names handed to the text writers, which take
+            # them literally - two re-interpretations at once say nothing)
             style = self.cfg['path_style']
             dest_path = {'abs': os.path.join(self.disk, step['dest_as']),
                          'dotdot': os.path.join(self.disk, 'sub', '..',
@@ -869,8 +872,14 @@ class Run:
                                 'crtf': {'coordsys', 'fmt', 'radunit'},
                                 'fits': {'header'}}[step['fmt']]
                     unbound = set(step['kwargs']) - known_kw
+                    odd_flag = step['overwrite'] is not None and \
+                        step.get('overwrite_as', 'bool') != 'bool'
                     if outcome[1] == 'IORegistryError' or \
-                            (unbound and outcome[1] == 'TypeError'):
+                            (unbound and outcome[1] == 'TypeError') or \
+                            (odd_flag and outcome[1] in ('TypeError',
+                                                         'ValueError')):
+                        # (... or spells the flag as something other than a
+                        # bool, which a writer may refuse to interpret)
                         pass
                     else:
                         self.violation(
@@ -900,7 +909,21 @@ class Run:
                     f'after modifying existing entries: '
                     + '; '.join(_describe_change(c) for c in clobbered))
         # W3: only the destination (or what it links to) may change
+        if self.cfg['path_style'] == 'tilde' and step['fmt'] != 'fits' and \
+                any(c[0] == os.path.join('~', dest_rel) for c in changes):
+            # a text writer that takes "~/name" literally (a directory called
+            # "~" below the working directory) has written there: either
+            # interpretation of the name is the writer's business
+            dest_rel = os.path.join('~', dest_rel)
+            reachable = {dest_rel}
         allowed = set(reachable)
+        # a writer may create the missing directories of the destination
+        anc = os.path.dirname(dest_rel)
+        while anc:
+            if before.get(anc) is None and \
+                    (after.get(anc) or [None])[0] == 'dir':
+                allowed.add(anc)
+            anc = os.path.dirname(anc)
         collateral = [c for c in changes if c[0] not in allowed]
         if collateral:
             self.violation('W3-collateral', i, step,
